@@ -1,4 +1,5 @@
 import torch
+from emu_base import _verif
 from typing import Any, no_type_check
 from emu_base.math.krylov_exp import krylov_exp
 from emu_base.math.double_krylov import double_krylov
@@ -159,6 +160,19 @@ class EvolveStateVector(torch.autograd.Function):
             interaction_matrix=interaction_matrix,
             device=state.device,
         )
+
+        if _verif.enabled():
+            _verif.emit(
+                "sv_step",
+                kind="unitary",
+                dt=dt,
+                omega=omegas,
+                delta=deltas,
+                phi=phis,
+                matrix=interaction_matrix,
+                tol=krylov_tolerance,
+                n_lindblad=len(pulser_lindblads),
+            )
 
         def op(x: torch.Tensor) -> torch.Tensor:
             return -1j * dt * (ham * x)
@@ -410,6 +424,19 @@ class EvolveDensityMatrix:
             interaction_matrix=full_interaction_matrix,
             device=density_matrix.device,
         )
+
+        if _verif.enabled():
+            _verif.emit(
+                "sv_step",
+                kind="lindblad",
+                dt=dt,
+                omega=omegas,
+                delta=deltas,
+                phi=phis,
+                matrix=full_interaction_matrix,
+                tol=krylov_tolerance,
+                n_lindblad=len(pulser_lindblads),
+            )
 
         def op(x: torch.Tensor) -> torch.Tensor:
             return -1j * dt * (ham @ x)
